@@ -14,7 +14,27 @@ COMMON_NOTE = ("Trusted: Coq 8.16.1 kernel (+ vm_compute), no axioms (Print Assu
 
 TRAV_NOTE = COMMON_NOTE + "Static (fully parsed) graphs only; synthetic graphs are built from real TestNode/TestObject/TestWorker/TestGraph objects with the recipe replaced by a fixed parameter dictionary and the parse of the creation pre-node replaced by a stub node; the coroutines are resumed by hand (one atomic section per resume); store semantics shared by model, fake door and stub task is an assumption (PASS puts the set states into the worker's own pool, a scan reads own and shared pools, unset removes from the own pool); the relations the code evaluates on names (worker id in name, scope strings, location substrings, bridged form, prefix priority) are exported from the real objects by the harness's own code."
 
+GRAPH_NOTE = COMMON_NOTE + "Translation validation: the parser (graph.py parse_* functions, params_parser, the Cartesian parser) is not modelled; each explored selection is parsed for real and the exported graph is judged by checkers whose soundness is proved. The exporter (harness code) reads nodes, edges with their object sets, per-object get/set states, clones, bridges and register identities (Python id) from the real objects; the rank certificate is computed by the harness and only checked."
+
 CHECKS = {
+    "C06": dict(
+        engine="corr-graph",
+        technique="Coq proof of the soundness of executable graph checkers (rank certificate => acyclic; unique parentless root + ranks => all reachable, by strong induction; edge symmetry; unique identities; exactly one same-worker producer per required state and no spurious edge; one net / named vms) + translation validation: the checkers are evaluated on the real parser's graphs",
+        text=('PARTIAL (translation validation). Proved for every graph the checker accepts: no cycle; exactly one root, without parents, from which every node is reachable; every dependency recorded on both ends with the same objects; identities pairwise different; for every required (object, state) of a non-flat, non-clone-source node exactly one parent of the same worker based on that object and producing exactly that state; every other edge leads to the shared root from the node creating that object; one network object and exactly the vms the parameters name. The checker is run on eager graphs of a seed-rotated slice of 456 selections of the shipped suite per run (and, in C09, on graphs grown lazily).'),
+        note=GRAPH_NOTE,
+        design="§5 C06"),
+    "C07": dict(
+        engine="corr-graph",
+        technique="Coq proof of checker soundness (none missing / duplicated / spurious per declared get state; clones pairwise different, source without dependants) + translation validation on the real parser's graphs + comparison of every composed node's get/set declarations with the flat Cartesian universe",
+        text=('PARTIAL (translation validation). Proved for accepted graphs: every declared dependency of a node is represented by exactly one producing parent of the same worker, no dependency exists without a matching get/set pair, a clone source has pairwise distinct clones requiring different states and keeps no dependants. Checked per explored selection: the checker accepts; node names are unique per graph (shared setup represented once per worker); every non-clone composed node carries exactly the get_state/set_state parameters of the flat test it was composed from.'),
+        note=GRAPH_NOTE,
+        design="§5 C07"),
+    "C09": dict(
+        engine="corr-graph",
+        technique='Coq proof (pointer model of bridge_with_node: a node joining a class that shares one register set shares it too, by induction over the class; checker soundness for symmetric, typed, register-sharing links) + translation validation: worker copies mirror each other, lazy traversal graph is a sub-graph of the eager one with identical dependencies, double parse identical',
+        text=("PARTIAL. Proved: C09_joined_node_shares_registers (the parser's bridging pattern; the update tool's all-pairs pattern as a computed instance; a counterexample for arbitrary orders); links accepted by the checker are symmetric, between equal forms, with identical register identity. Checked on real graphs: every node of a worker has a mirror in every other worker's copy with mirrored parents (copies_equiv), all equal forms of different workers are linked; after a lazy traversal (real parser, randomly delayed stub tests) every expanded node has exactly the eager graph's dependencies, every test form was expanded by some worker, and the grown graph passes the C06 checker; two parses of the same input are identical including prefixes."),
+        note=GRAPH_NOTE,
+        design="§5 C09"),
     "C01": dict(
         engine="corr-trace",
         technique="Coq proof of the decision links (start needs a positive run decision; a clean scan saw every set state in own/shared pool; a passing run leaves its states in the own pool) + trace refinement: hand-driven real coroutines vs the Gallina traversal model, section by section; availability itself is a monitor on the implementation's pools",
@@ -204,6 +224,7 @@ def main():
             {"name": "coq", "path": "coq/", "serves_properties": sorted(CHECKS), "kind_free_text": "Coq 8.16.1 theories: Model (definitions), Proofs (lemmas), Props (property theorems + Print Assumptions), Check (executable checkers used by the correspondence)"},
             {"name": "corr-proc", "path": "harness/props/c14.py", "serves_properties": [p for p in sorted(CHECKS) if CHECKS[p]["engine"] == "corr-proc"], "kind_free_text": "real temporary directories and forked processes; observed file systems and lock traces evaluated by the Gallina model / acceptor"},
             {"name": "corr-trace", "path": "harness/trav.py", "serves_properties": [p for p in sorted(CHECKS) if CHECKS[p]["engine"] == "corr-trace"], "kind_free_text": "event-loop-free driver resuming the real traverse_object_trees coroutines one atomic section at a time; traces compared with Model/TraverseRun.v by vm_compute; property monitors on the implementation's pools and events"},
+            {"name": "corr-graph", "path": "harness/graphx.py", "serves_properties": [p for p in sorted(CHECKS) if CHECKS[p]["engine"] == "corr-graph"], "kind_free_text": "real parses of the shipped suite in worker processes, exported to Model/Graph.v terms and judged by verified checkers (vm_compute)"},
             {"name": "corr-pure", "path": "harness/", "serves_properties": [p for p in sorted(CHECKS) if CHECKS[p]["engine"] == "corr-pure"], "kind_free_text": "generated cases run through the real Python code and through the Gallina model (cases.v + vm_compute), diffed inside Coq"},
         ],
         "checks": checks,
